@@ -9,7 +9,8 @@ std::vector<ModeInfo> harness_modes()
 {
 	return {{"ops", 0, "random operation histories on one printbuf vs a byte-array model"},
 	        {"sprintf_len", 6000, "sprintbuf of every output length 0..5999 at 4 starting fill levels"},
-	        {"memset_edges", 200000, "printbuf_memset at every (fill, offset, len) around the 32-byte capacity"}};
+	        {"memset_edges", 200000, "printbuf_memset at every (fill, offset, len) around the 32-byte capacity"},
+	        {"huge", 6, "a buffer grown past 1 GiB (half of INT_MAX): small appends still succeed, oversized ones are refused"}};
 }
 
 namespace {
@@ -94,8 +95,8 @@ struct H {
 		}
 		if (model.size() < (size_t)eff + len)
 			model.resize((size_t)eff + len);
-		for (int i = 0; i < len; i++)
-			model[eff + i] = (char)ch;
+		if (len > 0)
+			memset(&model[eff], ch, (size_t)len);
 		if (pb->size != before)
 			grew = true;
 		check(false, "memset");
@@ -189,6 +190,59 @@ void run_case(Choices &c, Ctx &ctx)
 		if (n >= 127 && n <= 129)
 			ctx.nontrivial(idx);
 		ctx.note("sprintbuf of " + str(n) + " bytes after fill " + str(fills[fill]));
+		h.finish();
+		leak.check(ctx);
+		return;
+	}
+	if (ctx.mode == "huge")
+	{
+		// The growth policy changes once the capacity exceeds INT_MAX/2; only a real >1 GiB buffer gets there.
+		uint64_t idx = c.bits(8) % 6;
+		static const int fills[3] = {(1 << 30) + 5, (1 << 30) + (1 << 28), 0x5fffffff};
+		int fill = fills[idx % 3];
+		{
+			// needs ~4.5 GiB (buffer, its realloc copy, the model); on a machine without that, explore nothing rather than
+			// mistake an out-of-memory refusal for a defect
+			long avail_kb = 0;
+			if (FILE *f = fopen("/proc/meminfo", "r"))
+			{
+				char line[256];
+				while (fgets(line, sizeof line, f))
+					if (sscanf(line, "MemAvailable: %ld kB", &avail_kb) == 1)
+						break;
+				fclose(f);
+			}
+			if (avail_kb < 12L * 1024 * 1024)
+			{
+				ctx.label("huge_skipped_low_memory");
+				ctx.note("skipped: MemAvailable " + str(avail_kb) + " kB");
+				return;
+			}
+		}
+		H h(ctx);
+		h.model.reserve((size_t)fill + 200000); // no doubling: the sanitizer's allocation limit is 2 GiB
+		h.memappend("head", 0);
+		h.do_memset(-1, 'h', fill);
+		if (idx / 3 == 0)
+		{
+			h.memappend("0123456789", 0);
+			h.do_sprintf(200, 0);
+			h.do_memset(-1, 'x', 100);
+			h.memappend("tail", 0);
+		}
+		else
+		{
+			h.do_memset(-1, 'x', 1);
+			h.do_sprintf(3, 1);
+			h.memappend(std::string(70000, 'y'), 0);
+		}
+		h.refuse_memappend(INT_MAX - h.pb->bpos);
+		h.refuse_memset(-1, INT_MAX - h.pb->bpos);
+		h.refuse_memset(INT_MAX - 4, 8);
+		h.memappend("end", 0);
+		ctx.label("huge_buffer");
+		ctx.nontrivial(idx);
+		ctx.note("buffer filled to " + str(fill) + " bytes, then small appends and must-refuse sizes");
 		h.finish();
 		leak.check(ctx);
 		return;
